@@ -59,7 +59,7 @@ def one_exec(cfg, fail, corrupt):
             ids, shallow, universe = request_ids(trees, cfg["shape"])
             src_before = store_snapshot(xw.src.path)
             dest_before = objects_only(store_snapshot(xw.dest.path))
-            plan = Plan(fail_oids=fail)
+            plan = Plan(fail_oids=fail, enoent=cfg.get("enoent", False))
             try:
                 res = xw.transfer(ids, plan=plan, shallow=shallow, verify=cfg["verify"])
             except Exception as e:  # noqa: BLE001
@@ -270,6 +270,15 @@ def configs(tier):
                                    "dest": dest, "verify": verify}
 
 
+def configs_enoent():
+    # uploads failing with FileNotFoundError although the source object exists
+    for s in ("one", "sharing"):
+        for shape in ("files", "shallowdir", "closed", "expanded"):
+            for dest in ("base", "local"):
+                yield {"scenario": s, "shape": shape, "src": "complete", "dest0": "empty", "dest": dest,
+                       "verify": False, "enoent": True}
+
+
 def run(ctx):
     ctx.rule = (
         "E3: tree sets x request shape {files, shallow dir, closed, expanded} x source {complete, a file "
@@ -287,6 +296,6 @@ def run(ctx):
     ]
     ctx.require("faults_fired", "verify_corrupt_runs", "both_sides_missing_runs", "already_present_runs",
                 "stale_index_histories")
-    cs = [{"cfg": c} for c in configs(ctx.tier)]
+    cs = [{"cfg": c} for c in configs(ctx.tier)] + [{"cfg": c} for c in configs_enoent()]
     cs += [{"part": "hist", "dest": d} for d in ("base", "local")]
     ctx.run_cases("run_case", cs, chunksize=1, det=4)
